@@ -1585,7 +1585,8 @@ static int do_exec(const char *file, char *const argv[], int search)
   int f = fault(C_EXEC);
   if (f) { e->injected = f; errno = f; ev_done(e, -1, f); return -1; }
   vk_log("    [child] exec(\"%.200s\")", file);
-  if (!vk_cfg.real_exec) {
+  if (!vk_cfg.real_exec && !S->force_real_exec) {
+    S->emulated_exec_used = 1;
     /* emulated exec only ever stands for the helper itself */
     struct stat sa, sb;
     if (!strchr(file, '/') || stat(file, &sa) < 0 || stat(vk_helper_path, &sb) < 0 || sa.st_dev != sb.st_dev || sa.st_ino != sb.st_ino) {
